@@ -3,6 +3,8 @@
 package h
 
 import (
+	"os"
+	"runtime/debug"
 	"fmt"
 	"time"
 
@@ -114,5 +116,8 @@ func stakingDelegation(del sdk.AccAddress, val sdk.ValAddress, shares math.Legac
 func PanicNote(r interface{}) {
 	if !nd.Symbolic() {
 		nd.Note("panic: " + fmt.Sprint(r))
+		if os.Getenv("HV_STACK") != "" {
+			os.Stderr.Write(debug.Stack())
+		}
 	}
 }
